@@ -10,13 +10,35 @@ package deb
 //@ import "github.com/goreleaser/nfpm/v2"
 //@ import "github.com/goreleaser/nfpm/v2/files"
 //
+//@ spec func dataMemberName(compression string) string {
+//@     switch compression {
+//@     case "", "gzip":
+//@         return "data.tar.gz"
+//@     case "xz":
+//@         return "data.tar.xz"
+//@     case "zstd":
+//@         return "data.tar.zst"
+//@     }
+//@     return "data.tar"
+//@ }
+//
+//@ spec func sigMemberLine(signing bool, method, typ string) string {
+//@     if !signing { return "" }
+//@     if method == "dpkg-sig" { return files.ToNixPath("_gpg"+dpkgSigType(typ)) + "\n" }
+//@     return files.ToNixPath("_gpg"+debSigType(typ)) + "\n"
+//@ }
+//
 //@ func (d *Deb) Package(info *nfpm.Info, deb io.Writer) (err error)
 //@   requires info != nil
+//@   requires !ghostFlag("signerFailed")
 //@   requires files.SpecContentsNonNil(info.Contents)
 //@   requires !ghostFlag("failed") && !ghostFlag("clockRead") && !ghostFlag("envRead")
 //@   ensures [C06] loud: implies(err == nil, !ghostFlag("failed"))
 //@   ensures [C07] no-clock: implies(!old(info.MTime.IsZero()), !ghostFlag("clockRead"))
 //@   ensures [C07] no-env: !ghostFlag("envRead")
+//@   ensures [C04] ar-members-in-order: implies(err == nil && old(ghostStr(deb, "arNames")) == "", ghostStr(deb, "arNames") == "debian-binary\ncontrol.tar.gz\n" + dataMemberName(old(info.Deb.Compression)) + "\n" + sigMemberLine(old(info.Deb.Signature.KeyFile) != "" || !isNilFunc(old(info.Deb.Signature.SignFn)), old(info.Deb.Signature.Method), old(info.Deb.Signature.Type)))
+//@   ensures [C10] signature-covers-the-stored-members: implies(err == nil && old(ghostStr(deb, "arBodies")) == "" && (old(info.Deb.Signature.KeyFile) != "" || !isNilFunc(old(info.Deb.Signature.SignFn))) && old(info.Deb.Signature.Method) != "dpkg-sig", strings.HasPrefix(ghostStr(deb, "arBodies"), globStr("signedBytes")))
+//@   ensures [C10] signer-failure-is-typed: implies(ghostFlag("signerFailed"), err != nil && errAsSigningFailure(err) && errIs(err, globErr("signerErr")))
 //@   modifies [C11 C12] &info.Arch, &info.Contents, &info.Priority, &info.Maintainer
 //
 //@ import "archive/tar"
@@ -71,11 +93,17 @@ package deb
 //@     return t
 //@ }
 //
+//@ spec func dpkgSigType(t string) string {
+//@     if t == "" { return "builder" }
+//@     return t
+//@ }
+//
 //@ spec func validSigType(t string) bool { return t == "origin" || t == "maint" || t == "archive" }
 //
 //@ func debSign(info *nfpm.Info, debianBinary, controlTarGz, dataTarball []byte) (sig []byte, sigType string, err error)
 //@   requires info != nil
 //@   requires !ghostFlag("failed")
+//@   ensures [C07] no-clock-no-env: ghostFlag("clockRead") == old(ghostFlag("clockRead")) && ghostFlag("envRead") == old(ghostFlag("envRead"))
 //@   ensures [C10] signs-exactly-the-three-members: implies(err == nil, globStr("signedBytes") == string(debianBinary)+string(controlTarGz)+string(dataTarball))
 //@   ensures [C10] signature-type: sigType == debSigType(old(info.Deb.Signature.Type))
 //@   ensures [C10] valid-type-on-success: implies(err == nil, validSigType(sigType))
@@ -88,6 +116,8 @@ package deb
 //@ func dpkgSign(info *nfpm.Info, debianBinary, controlTarGz, dataTarball []byte) (sig []byte, sigType string, err error)
 //@   requires info != nil
 //@   requires !ghostFlag("failed")
+//@   ensures [C10] signature-type: sigType == dpkgSigType(old(info.Deb.Signature.Type))
+//@   ensures [C07] no-clock: implies(!old(info.MTime.IsZero()), ghostFlag("clockRead") == old(ghostFlag("clockRead")))
 //@   ensures [C10 C06] signer-failure-is-reported: implies(ghostFlag("failed"), err != nil)
 //@   ensures [C10] signer-failure-is-typed: implies(ghostFlag("failed"), errAsSigningFailure(err))
 //@   ensures [C10] signer-error-is-wrapped: implies(ghostFlag("failed") && !isNilFunc(old(info.Deb.Signature.SignFn)), errIs(err, globErr("signerErr")))
